@@ -58,3 +58,43 @@ func ownSocket(remote net.Addr) bool {
 	}
 	return false
 }
+
+// ownSocketControl is the positive control of ownSocket: connections this
+// process makes to a listener of its own must be recognised, the listener's
+// own descriptor must not make a stranger look familiar.
+func ownSocketControl(n int) error {
+	l, err := net.Listen("tcp", "127.0.0.1:0")
+	if err != nil {
+		return nil // no port to be had right now: nothing learnt, nothing wrong
+	}
+	defer l.Close()
+	for i := 0; i < n; i++ {
+		c, err := net.Dial("tcp", l.Addr().String())
+		if err != nil {
+			return nil
+		}
+		s, err := l.Accept()
+		if err != nil {
+			c.Close()
+			return nil
+		}
+		own := ownSocket(s.RemoteAddr())
+		// an address nobody here holds: the peer's port on another loopback address
+		ta := *s.RemoteAddr().(*net.TCPAddr)
+		ta.IP = net.IPv4(127, 0, 0, 2)
+		stranger := ownSocket(&ta)
+		c.Close()
+		s.Close()
+		if !own {
+			return errOwnSocket("a connection of this process was not recognised as its own")
+		}
+		if stranger {
+			return errOwnSocket("an address no socket of this process holds was taken for its own")
+		}
+	}
+	return nil
+}
+
+type errOwnSocket string
+
+func (e errOwnSocket) Error() string { return string(e) }
